@@ -3,6 +3,10 @@
 
   line(s) of bottleneck.py                         here
   ------------------------------------------------ ------------------------------------------
+  50, 59 np.array(dgm, dtype=float)                 — (the model is dtype-free: its numbers are the values of the
+                                                     entries whatever representation the caller used; the conversion
+                                                     was added by /repo fix 82ac8af, before it narrow / unsigned
+                                                     integer inputs wrapped around in lines 80-82)
   50-67  np.isfinite filter on the death column    `filterFinite` (flag = "warning was issued")
   69-74  `(0,0)` placeholder for an empty side      `withPlaceholder`
   78-97  augmented (M+N)x(M+N) matrix `D`           `augD` (entries `Ext α`, `Ext.top` = np.inf)
